@@ -177,6 +177,25 @@ class Sym(np.ndarray):
     def __array_function__(self, func, types, args, kwargs):
         if func is np.pad:
             a = args[0]
+            mode = args[2] if len(args) > 2 else kwargs.get('mode', 'constant')
+            if mode == 'linear_ramp':
+                # NumPy: each side is linspace(end_value, edge, width, endpoint=False), reversed on the right
+                raw = a.raw() if isinstance(a, Sym) else np.asarray(a, dtype=object)
+                pw = args[1]
+                if raw.ndim != 1 or not (isinstance(pw, tuple) and len(pw) == 2 and all(isinstance(x, (int, np.integer)) for x in pw)):
+                    raise NotImplementedError('linear_ramp padding of this shape')
+                ev = kwargs.get('end_values', 0)
+                el, er = (ev, ev) if not isinstance(ev, (tuple, list)) else ev
+                n = raw.shape[0]
+                out = np.empty(n + pw[0] + pw[1], dtype=object)
+                for k in range(pw[0]):
+                    out[k] = rq(el) + (rq(raw[0]) - rq(el)) * z3.Q(k, pw[0])
+                out[pw[0]:pw[0] + n] = raw
+                for j in range(pw[1]):
+                    out[pw[0] + n + j] = rq(er) + (rq(raw[n - 1]) - rq(er)) * z3.Q(pw[1] - 1 - j, pw[1])
+                r = out.view(Sym)
+                r._ld = a._ld if isinstance(a, Sym) else np.dtype('f8')
+                return r
             r = func(a.raw() if isinstance(a, Sym) else a, *args[1:], **kwargs)
             r = r.view(Sym)
             r._ld = a._ld
@@ -184,10 +203,22 @@ class Sym(np.ndarray):
         if func is np.correlate:
             a, v = args[0], args[1]
             mode = args[2] if len(args) > 2 else kwargs.get('mode', 'valid')
-            assert mode == 'full'
             n, m = len(a), len(v)
-            out = np.empty(n + m - 1, dtype=object)
             ao = a.raw() if isinstance(a, Sym) else a
+            if mode == 'valid':
+                if n < m:
+                    raise NotImplementedError("correlate 'valid' with the longer second operand")
+                out = np.empty(n - m + 1, dtype=object)
+                for k in range(n - m + 1):
+                    s = z3.RealVal(0)
+                    for i in range(m):          # numpy.correlate(a, v, 'valid')[k] = sum_i a[k + i] * v[i]
+                        s = s + ao[k + i] * rq(v[i])
+                    out[k] = s
+                r = out.view(Sym)
+                r._ld = np.dtype('f8')
+                return r
+            assert mode == 'full'
+            out = np.empty(n + m - 1, dtype=object)
             for k in range(n + m - 1):
                 s = z3.RealVal(0)
                 for j in range(n):
